@@ -69,6 +69,10 @@ void K_urd_ctor(uniform_real_distribution<float> *d, float lo, float hi)
 {
   new (d) uniform_real_distribution<float>(lo, hi);
 }
+void K_urd_ctor_d(uniform_real_distribution<double> *d, double lo, double hi)
+{
+  new (d) uniform_real_distribution<double>(lo, hi);
+}
 float K_urd_gen(uniform_real_distribution<float> *d, RkvGen *g) { return (*d)(*g); }
 double K_urd_gen_d(uniform_real_distribution<double> *d, RkvGen *g) { return (*d)(*g); }
 float K_urd_pcg(uniform_real_distribution<float> *d, pcg32 *g) { return (*d)(*g); }
